@@ -23,7 +23,7 @@ const DENY: &[&str] = &[
 ];
 
 // (values a command may use as a SIZE stay small: exhausting memory is outside the property; the large ones do not parse as i64 / usize)
-const NUMS: [&str; 16] = ["0", "1", "-1", "2", "3", "10", "255", "65536", "-100000", "99999999999999999999", "1.5", "-0.0", "1e309", "NaN", "0x1F", "٣"];
+const NUMS: [&str; 16] = ["0", "1", "-1", "2", "3", "10", "255", "65536", "-9223372036854775808", "99999999999999999999", "1.5", "-0.0", "1e309", "NaN", "0x1F", "٣"];
 const TEXTS: [&str; 18] = ["", " ", "a", "abc", "a b", "héllo", "日本語", "\u{0}", "é", "\u{1F600}", "A-b_c D", "a,b,,c", "k=v", "x\ty", "%", "/", ".", "true"];
 const FLAGS: [&str; 14] = ["--", "-r", "--recursive", "--copy", "--prefix", "-e", "-d", "-encode", "-decode", "--help", "--collection", "--order", "--pretty", "--full"];
 const DOCS: [&str; 12] = ["{\"name\":\"x\",\"住所録\":{\"city\":\"tokyo\"}}", "{\"日\":{\"a\":1},\"éé\":{\"b\":[1,{\"ç\":2}]}}", "{}", "[]", "[1,2", "{\"a\":1,\"b\":[true,null,{\"c\":\"d\"}]}", "null", "\"s\"", "1.2.3", "1.x", "a=b\nc=d", "YWJj"];
